@@ -33,6 +33,10 @@ def upper_bounded(operand, pc):
 
 def check(ctx):
     p = ctx.prog
+    # all arithmetic behind this property happens in the numeric type T of the instantiation
+    single_precision(ctx, 'prec.single_type', ['hep::accumulator::', 'hep::projector::', 'hep::distribution_parameters::', 'hep::distribution_result::'], 1)
+    # no constructor of the classes this property computes with leaves a member indeterminate
+    members_initialised(ctx, 'init.members', ['hep::accumulator', 'hep::distribution_parameters', 'hep::distribution_result', 'hep::projector'], 5)
     ctx.assume('bin sizes positive and finite, range minima finite, bin counts >= 1 (documented '
                'preconditions of distribution_parameters)')
     th = sym('this')
@@ -204,6 +208,10 @@ def check(ctx):
             if not (isinstance(ind, tuple) and ind[0] == 'vcomp' and ind[3] == ZERO and ind[4] == T.size(PR)
                     and ind[5] == T.TRUE):
                 raise AnalysisBroken('indices_ is not built by one pass over the parameters')
+            if ind[1] != T.vempty():
+                ctx.violation('R1.indices', fsite(c), 'indices_ does not start empty: the offset of distribution d is '
+                              'not at position d', {'starts_with': T.pretty(ind[1])[:200]})
+                return
             d = ind[2]
             want = add(TWO, ('sum', e_, ZERO, d, mul(TWO, bins_of(PR, e_))))
             check_equal(ctx, 'R1.indices', fsite(c), 'indices_[d] = 2 + 2*sum_{e<d} bins_x(e)*bins_y(e)',
@@ -219,6 +227,32 @@ def check(ctx):
             else:
                 ctx.violation('R1.storage', fsite(c), 'size of sums_ does not match the number of bins',
                               {'size': T.pretty(sz)[:300]})
+            # the per-cell vectors (compensations, the two counters; cell = index / 2) need total / 2 cells
+            def halves(t):
+                # 2 * (x div 2) for an even x
+                if isinstance(t, tuple) and t and t[0] == 'idiv' and t[2] == TWO:
+                    return t[1]
+                return mul(TWO, t)
+            short = []
+            ncell = 0
+            for fl in c.record.fields:
+                v = fld(s.this, fl['name'])
+                if fl['name'] in ('sums_', 'indices_') or v == PR or not \
+                        (isinstance(v, tuple) and v and v[0] in ('vzeros', 'vfill', 'vcomp', 'vmap', 'vresize')):
+                    continue
+                ncell += 1
+                szc = halves(T.size(v))
+                if not (algebra.equal(szc, total)[0] or algebra.equal(szc, add(total, TWO))[0]):
+                    short.append((fl['name'], T.pretty(T.size(v))[:200]))
+            if ncell < 3:
+                raise AnalysisBroken('the per-cell vectors of accumulator<T,true> (compensations, counters) are '
+                                     'not recognised')
+            if short:
+                ctx.violation('R1.cell_storage', fsite(c), 'a per-cell vector does not have one element per cell '
+                              '(integrated result and every bin): .at() throws for the last bins, [] writes past '
+                              'the end', {'vectors': short})
+            else:
+                ctx.holds('R1.cell_storage', fsite(c), '%d per-cell vectors hold total/2 elements' % ncell)
         ctx.guard('R1.indices', fsite(c), rc)
 
     # ---------------------------------------------------------------- R4 result(): bins
@@ -248,7 +282,12 @@ def check(ctx):
                 raise AnalysisBroken('result(): bins are not built by one counted loop')
             from .. import algebra
             okn, _ = algebra.equal(bins[4], nb)
-            if okn:
+            if bins[1] != T.vempty() or dists[1] != T.vempty():
+                ctx.violation('R4.all_bins', fsite(r), 'the bins of distribution d are appended to a vector that is '
+                              'not empty: bins of earlier distributions (a scratch vector that is not emptied between '
+                              'distributions) precede them, bin k is no longer at position k',
+                              {'starts_with': T.pretty(bins[1] if bins[1] != T.vempty() else dists[1])[:300]})
+            elif okn:
                 ctx.holds('R4.all_bins', fsite(r), 'every bin (bins_x*bins_y) is reported, in linear order')
             else:
                 ctx.violation('R4.all_bins', fsite(r), 'not every bin is reported',
